@@ -30,6 +30,7 @@ type gateLine struct {
 	Res   string          `json:"res"`
 	Parts [][]interface{} `json:"parts"` // state after the call / reported by the callback: [id, idx, ready]
 	SGc   int             `json:"sgc"`
+	Seq   int             `json:"seq"` // which set-up of this trace the line belongs to (carried in the participants' indexes: idx / 100)
 	Mode  string          `json:"mode"`
 	TOms  int64           `json:"toms"`
 }
@@ -42,6 +43,7 @@ type gateRec struct {
 	t0  time.Time
 	mode string
 	toms int64
+	seq  int // the set-up being announced (setupcall lines carry no state)
 }
 
 func (r *gateRec) emit(ev, gate string, gc int, ids []string, id, res string, st ogm.OpenGameState) {
@@ -54,8 +56,13 @@ func (r *gateRec) emit(ev, gate string, gc int, ids []string, id, res string, st
 		l.IDs = []string{}
 	}
 	keys := []string{}
-	for k := range st.Participants {
+	l.Seq = -1
+	for k, p := range st.Participants {
 		keys = append(keys, k)
+		l.Seq = p.Index / 100
+	}
+	if ev == "setupcall" {
+		l.Seq = r.seq
 	}
 	sort.Strings(keys)
 	for _, k := range keys {
@@ -134,14 +141,21 @@ func cmdGate(args []string) int {
 		}
 		ids := []string{"a", "b", "c", "d"}
 		gc := 0
+		seq := 0
 		doSetup := func() {
-			gc++
+			if gc == 0 || r.Intn(4) != 0 {
+				gc++ // (otherwise: a re-set-up for the same game count, e.g. the line-up changed before the hand opened)
+			}
+			seq++
+			rec.mu.Lock()
+			rec.seq = seq
+			rec.mu.Unlock()
 			k := 1 + r.Intn(4)
 			perm := r.Perm(4)
 			parts := map[string]int{}
 			names := []string{}
 			for _, j := range perm[:k] {
-				parts[ids[j]] = j + 10*r.Intn(2) // indexes need not be dense
+				parts[ids[j]] = 100*seq + j + 10*r.Intn(2) // indexes need not be dense; the hundreds name the set-up
 				names = append(names, ids[j])
 			}
 			sort.Strings(names)
